@@ -50,6 +50,38 @@ Qed.
 Print Assumptions C06_structured_Q_is_orthonormal.
 Print Assumptions C06_structured_factors_reconstruct.
 Print Assumptions C06_contract_of_triangular.
+(* ------------------------------------------------------------------------------------------------
+   qr_qua, data flow regenerated from the source (qtrans/gen_c06.py) *)
+From B Require Import Gen_C06.
+Section Gen.
+Variable C : CRing.
+Notation qmat := (qmat C).
+(* wide input [X1 X2]: with (Q, R_lead) the factors of the leading square block and Q unitary, Q [R_lead, R_rest] = [X1, X2] *)
+Theorem C06_gen_wide_reconstructs m p (Qm R1 X1 X2 : qmat) :
+  meq m m (qmm m Qm (qherm Qm)) qmid -> meq m m X1 (qmm m Qm R1) ->
+  meq m m (qmm m Qm R1) X1 /\ meq m p (qmm m Qm (gen_qr_wide_R_rest C m p Qm X2)) X2.
+Proof. intros HQ H1. split; [symmetry; exact H1|]. unfold gen_qr_wide_R_rest.
+  rewrite <- (qmm_assoc C m m m p Qm (qherm Qm) X2), HQ. apply (qmm_id_l C m p X2). Qed.
+(* tall / square input: if X = Q R' for an upper-triangular R' (what the structured real QR provides) and Q^H Q = I,
+   then the recomputed and cleaned R is R' and X = Q R; R is upper triangular whatever Q is *)
+Theorem C06_gen_tall_R_upper_triangular m n (Qm X : qmat) (i j : nat) : (j < i)%nat -> gen_qr_tall_R C m n Qm X i j = qzero.
+Proof. intros H. unfold gen_qr_tall_R. now replace (Nat.ltb j i) with true by (symmetry; apply Nat.ltb_lt; exact H). Qed.
+Theorem C06_gen_tall_reconstructs m n (Qm X R' : qmat) :
+  meq n n (qmm m (qherm Qm) Qm) qmid -> meq m n X (qmm n Qm R') -> (forall i j : nat, (i < n)%nat -> (j < i)%nat -> R' i j = qzero) ->
+  meq n n (gen_qr_tall_R C m n Qm X) R' /\ meq m n X (qmm n Qm (gen_qr_tall_R C m n Qm X)).
+Proof.
+  intros HQ HX HT.
+  assert (E : meq n n (gen_qr_tall_R C m n Qm X) R').
+  { intros i j Hi Hj. unfold gen_qr_tall_R. destruct (Nat.ltb_spec j i) as [L|L]; [symmetry; now apply HT|].
+    assert (P : meq n n (qmm m (qherm Qm) X) R').
+    { rewrite HX, <- (qmm_assoc C n m n n (qherm Qm) Qm R'), HQ. apply (qmm_id_l C n n R'). }
+    now apply P. }
+  split; [exact E|]. rewrite E. exact HX.
+Qed.
+End Gen.
+
 Print Assumptions C06_wide_completion.
+Print Assumptions C06_gen_wide_reconstructs.
+Print Assumptions C06_gen_tall_reconstructs.
 Print Assumptions C06_R_recomputed.
 Print Assumptions C06_rank_deficient_oracle_refuted.
